@@ -173,6 +173,7 @@ main(int argc, char** argv)
   v_alloc_init(&va);
   va.logging = false;
   v_setup_io();
+  v_watchdog(60);
   const long page = sysconf(_SC_PAGE_SIZE);
   while ((n = v_next(in, tok)) >= 0) {
     if (v_marker(n, tok)) continue;
